@@ -19,4 +19,6 @@ let table : (string * (BinNums.coq_N list -> BinNums.coq_N list)) list = [
   ("mon_c05", MonSession.mon_c05);
   ("mon_pair", MonPair.mon_pair);
   ("chk_pair", MonPair.chk_pair);
+  ("chk_c18", PropsCorr.chk_c18);
+  ("mon_c18", PropsCorr.mon_c18);
 ]
